@@ -284,6 +284,17 @@ func mGrpcDial(target string, opts ...grpc.DialOption) (*grpc.ClientConn, error)
 	return nil, errors.New("connection refused")
 }
 
+// wTimedC15 runs f and reports whether it panicked
+func wTimedC15(f func()) (panicked bool) {
+	panicked = true
+	func() {
+		defer func() { recover() }()
+		f()
+		panicked = false
+	}()
+	return
+}
+
 func harnessC15() {
 	listening = vChoice(2) == 1
 	thePlugin.alive = listening
@@ -330,6 +341,14 @@ func harnessC15() {
 	if !allowedOK {
 		vCover("refused-protocol")
 		vAssert(err != nil, "C14: the client never speaks a protocol outside its allowed list (reattach)")
+		// the refusal is final: a second call on the same client does not turn it into a success
+		_, err2 := c.Start()
+		vAssert(err2 != nil, "C14: the client never speaks a protocol outside its allowed list (reattach, second Start after the refusal)")
+		r := wTimedC15(func() { c.Client() })
+		vAssert(!r, "C14: Client() after a refused reattach does not panic")
+		_, err3 := c.Client()
+		vAssert(err3 != nil, "C14: no protocol client is handed out after a refused reattach")
+		vAssert(c.Protocol() == ProtocolInvalid, "C14: no protocol is reported after a refused reattach")
 		c.Kill() // e.g. the caller's deferred Kill, or CleanupClients
 		if test {
 			vCover("refused-then-kill-test-mode")
